@@ -9,4 +9,4 @@ Extraction "Extract/model.ml" conn_set calc_single alternatives calc_allnodes fi
   wf_data_b pos_hops_b uniform_wait_b wf_tables_b wf_params_b valid_itinerary_b limits_ok_b totals_ok_b
   earliest_arrival_ref latest_departure_ref reach_map_fwd_ref reach_map_rev_ref
   service_from_origin_b service_to_destination_b route_lines sort_nat list_eqb
-  optimize OPT_FUEL find_conn emit minw_true.
+  optimize OPT_FUEL find_conn emit minw_true delete_excluded all_inclusive.
